@@ -7,9 +7,9 @@ import MirProofs.Props.C10_Gen
 import MirProofs.Props.C10
 /-!
   C10 (label functions) — the definitions of `chord.validate_chord_label`, `split`, `join`, `reduce_extended_quality`,
-  `scale_degree_to_bitmap`, `quality_to_bitmap`, `encode` and `rotate_bitmap_to_root` that
+  `scale_degree_to_bitmap`, `quality_to_bitmap` and `encode` that
   harness/translate/scalars_chordfn.py REGENERATES from mir_eval/chord.py on every run (MirGen/ChordFns.lean) equal the
-  hand-written models of `MirModel/Chord/{Split,Encode}.lean` (and `ChordCompare.rotate`) for ALL arguments — every string,
+  hand-written models of `MirModel/Chord/{Split,Encode}.lean` for ALL arguments — every string,
   not only grammatical labels, exceptions included — and the headline statements of C10 hold of the translated functions.
 
   What the tie rests on: the translator and its run-time library `MirModel/PyChord.lean` (the reading of `str.split(c)`,
@@ -203,34 +203,6 @@ theorem encode_eq_model (s : List Char) (r sb : Bool) : Mir.Gen.chord.encode s r
   by_cases hz : (threshold bm').getD (b % 12).toNat 0 = 0 <;> cases sb <;>
     simp [hz, hget, hset2, pure, Except.pure, bind, Except.bind]
 
-/-- `chord.rotate_bitmap_to_root` as translated (`np.nonzero` / fancy-index assignment) is the model used by C11's mirex
-    comparison, for every bitmap with at least 12 entries (the documented shape is `(12,)`) and EVERY integer root -/
-theorem rotate_bitmap_to_root_eq_model (bm : List Int) (root : Int) (h : 12 ≤ bm.length) :
-    Mir.Gen.chord.rotate_bitmap_to_root bm root = .ok (Mir.ChordCompare.rotate bm root) := by
-  unfold Mir.Gen.chord.rotate_bitmap_to_root Mir.ChordCompare.rotate
-  simp only [decide_true, if_true, vecPut, vecModLit, vecAddInt, nonzero1, List.map_map]
-  have hfil : (List.range bm.length).filter (fun i => bm.getD i 0 != 0) =
-      (List.range bm.length).filter (Mir.ChordCompare.nzAt bm) := by
-    apply List.filter_congr; intro i _; rw [nzAt_eq]
-  rw [hfil]
-  have hrange : ∀ i ∈ ((List.range bm.length).filter (Mir.ChordCompare.nzAt bm)).map
-      ((fun x => x % 12) ∘ (fun x => x + root) ∘ fun (i : Nat) => (i : Int)), 0 ≤ i ∧ i < ((zerosLike bm).length : Int) := by
-    intro i hi
-    obtain ⟨k, _, rfl⟩ := List.mem_map.1 hi
-    have := emod12_range ((k : Int) + root)
-    simp only [Function.comp, zerosLike, List.length_replicate]
-    omega
-  rw [mapM_normIndex _ _ hrange]
-  simp only [zerosLike_getD, zerosLike, List.length_replicate]
-  congr 1
-  apply List.map_congr_left
-  intro j _
-  rw [contains_toNat _ (fun i hi => (hrange i hi).1)]
-  have hz := zerosLike_getD bm j
-  unfold zerosLike at hz
-  rw [hz]
-  rfl
-
 /-- `scale_degree_to_bitmap` for the lengths no caller uses (`length <= 0`): `[0] * length` is empty, so an in-range
     degree raises ZeroDivisionError (`% 0`) or IndexError (store into an empty list), anything else returns `[]` -/
 theorem scale_degree_to_bitmap_nonpos (s : List Char) (m : Bool) (n : Int) (hn : n ≤ 0) :
@@ -271,9 +243,6 @@ theorem scale_degree_to_bitmap_nonpos (s : List Char) (m : Bool) (n : Int) (hn :
     exact tail _ (-1) _ (fun idx => key (-1) idx)
   · simp only [h, if_false]
     exact tail _ 1 _ (fun idx => key 1 idx)
-
-/-- a bitmap shorter than 12 entries can make the fancy-index store raise IndexError (NumPy's own bounds check) -/
-example : Mir.Gen.chord.rotate_bitmap_to_root [0, 0, 1] 5 = .error .indexError := by decide
 
 /-! ## The headline statements of C10, on the functions as translated -/
 
@@ -368,8 +337,7 @@ example :
     Mir.Gen.chord.scale_degree_to_bitmap "3".toList true (-2) = .error .indexError ∧
     Mir.Gen.chord.quality_to_bitmap "hdim7".toList = .ok [1, 0, 0, 1, 0, 0, 1, 0, 0, 0, 1, 0] ∧
     Mir.Gen.chord.quality_to_bitmap "aug7".toList = .error .invalidChord ∧
-    Mir.Gen.chord.reduce_extended_quality "min11".toList = .ok ("min7".toList, ["9".toList, "11".toList]) ∧
-    Mir.Gen.chord.rotate_bitmap_to_root [1, 0, 0, 0, 1, 0, 0, 1, 0, 0, 0, 0] 7 = .ok [0, 0, 1, 0, 0, 0, 0, 1, 0, 0, 0, 1] := by
+    Mir.Gen.chord.reduce_extended_quality "min11".toList = .ok ("min7".toList, ["9".toList, "11".toList]) := by
   decide +kernel
 
 end Mir.C10.GenFns
